@@ -1,4 +1,4 @@
-(* C16 proofs: derived grids (multiple, divider, dilate, sub-grid) *)
+(* C16 proofs: derived grids (multiple, divider, dilate, sub-grid) — any grid, rotated or not *)
 From Coq Require Import List ZArith QArith Qround Qabs Bool Lia Lqa Setoid Morphisms.
 From Gst Require Import lib.QAux C16.Model C16.Spec C16.Proofs_rank C16.Proofs_lin C16.Proofs_coord.
 Import ListNotations.
@@ -7,9 +7,17 @@ Local Open Scope Q_scope.
 Lemma map_nth' {A B} (f : A -> B) l d d' k : (k < length l)%nat -> nth k (map f l) d' = f (nth k l d).
 Proof. intros H. rewrite (nth_indep _ d' (f d)) by (rewrite map_length; exact H). apply map_nth. Qed.
 
-Definition unrotated (g : grid) : Prop := r_flag (g_rot g) = false.
 Definition wflen (n : nat) (g : grid) : Prop :=
   length (g_nx g) = n /\ length (g_x0 g) = n /\ length (g_dx g) = n.
+(* lengths agree and, when the rotation is active, its matrix is n x n (no orthogonality needed here) *)
+Definition gridok (n : nat) (g : grid) : Prop :=
+  wflen n g /\ (r_flag (g_rot g) = false \/ wfmat n (r_mat (g_rot g))).
+
+Lemma wfgrid_gridok n g : wfgrid n g -> gridok n g.
+Proof.
+  intros (Hnx & Hx0 & Hdx & _ & _ & Hr). split; [repeat split; assumption|].
+  destruct Hr as [Hr|[[HW _] _]]; [left; exact Hr|right; exact HW].
+Qed.
 
 Lemma pz_length (ind : list Z) pc n : length ind = n -> (pc = [] \/ length pc = n) ->
   length (match pc with [] => map (fun _ => 0) ind | _ => pc end) = n.
@@ -21,246 +29,9 @@ Proof.
   - rewrite (map_nth' (fun _ => 0) ind 0%Z) by lia. destruct k; reflexivity.
   - destruct pc; [simpl in Hp; lia|reflexivity].
 Qed.
+Lemma nth_nil_Q k : nth k (@nil Q) 0 = 0.
+Proof. destruct k; reflexivity. Qed.
 
-Lemma i2c_length_unrot n g ind pc : unrotated g -> wflen n g -> length ind = n -> (pc = [] \/ length pc = n) ->
-  length (i2c g ind pc true) = n.
-Proof.
-  intros Hu (Hnx & Hx0 & Hdx) Hi Hp. unfold i2c, rotate_direct, scaled, vadd. rewrite Hu.
-  pose proof (pz_length ind pc n Hi Hp) as Hz.
-  rewrite map2_length; rewrite map2_length; try rewrite map2_length; congruence.
-Qed.
-(* component k of a position of the unrotated grid *)
-Lemma i2c_nth_unrot n g ind pc k : unrotated g -> wflen n g -> length ind = n -> (pc = [] \/ length pc = n) -> (k < n)%nat ->
-  nth k (i2c g ind pc true) 0 = (inject_Z (nth k ind 0%Z) + nth k pc 0) * nth k (g_dx g) 0 + nth k (g_x0 g) 0.
-Proof.
-  intros Hu (Hnx & Hx0 & Hdx) Hi Hp Hk. unfold i2c, rotate_direct, scaled, vadd. rewrite Hu.
-  pose proof (pz_length ind pc n Hi Hp) as Hz.
-  rewrite (map2_nth Qplus _ _ 0 0 0) by (rewrite map2_length; rewrite map2_length; congruence).
-  rewrite (map2_nth Qmult _ _ 0 0 0) by (rewrite map2_length; congruence).
-  rewrite (map2_nth (fun i p => inject_Z i + p) _ _ 0%Z 0 0) by congruence.
-  rewrite (pz_nth ind pc n k) by assumption. reflexivity.
-Qed.
-
-Lemma zerosZ_length g : length (zerosZ g) = length (g_nx g).
-Proof. apply map_length. Qed.
-Lemma constQ_length g q : length (constQ g q) = length (g_nx g).
-Proof. apply map_length. Qed.
-Lemma zerosZ_nth g k : nth k (zerosZ g) 0%Z = 0%Z.
-Proof.
-  unfold zerosZ. destruct (Nat.lt_ge_cases k (length (g_nx g))) as [H|H].
-  - apply (map_nth' (fun _ => 0%Z) (g_nx g) 0%Z). exact H.
-  - apply nth_overflow. rewrite map_length. exact H.
-Qed.
-Lemma constQ_nth g q k : (k < length (g_nx g))%nat -> nth k (constQ g q) 0 = q.
-Proof. intros H. unfold constQ. apply (map_nth' (fun _ => q) (g_nx g) 0%Z). exact H. Qed.
-
-(* ---- Grid::multiple / Grid::divider, unrotated: the origin is where the documented meaning puts it *)
-Lemma multiple_x0_unrot n g nmult fc : unrotated g -> wflen n g -> length nmult = n ->
-  eqlQ (snd (multiple g nmult fc)) (spec_multiple_x0 g nmult fc).
-Proof.
-  intros Hu Hw Hm. pose proof Hw as (Hnx & Hx0 & Hdx).
-  unfold multiple, spec_multiple_x0, frac_node, node. simpl. destruct fc; [|].
-  2:{ assert (L0' : length (zerosZ g) = n) by (rewrite zerosZ_length; exact Hnx).
-      assert (Le : (@nil Q) = [] \/ length (@nil Q) = n) by (left; reflexivity).
-      apply (eqlQ_nth n); [exact Hx0|apply (i2c_length_unrot n); assumption|].
-      intros k Hk. rewrite (i2c_nth_unrot n) by assumption.
-      rewrite zerosZ_nth. replace (nth k (@nil Q) 0) with 0 by (destruct k; reflexivity). ring. }
-  assert (L0 : length (zerosZ g) = n) by (rewrite zerosZ_length; exact Hnx).
-  assert (Lc : forall q, constQ g q = [] \/ length (constQ g q) = n) by (intros q; right; rewrite constQ_length; exact Hnx).
-  assert (L1 : forall q, length (i2c g (zerosZ g) (constQ g q) true) = n) by (intros q; apply (i2c_length_unrot n); auto).
-  assert (Ls : length (map (fun m : Z => (inject_Z m - 1) / 2) nmult) = n) by (rewrite map_length; exact Hm).
-  apply (eqlQ_nth n).
-  - unfold vadd, vsub. rewrite map2_length; [apply L1|]. rewrite L1. rewrite map2_length; rewrite map_length; rewrite map2_length; rewrite ?L1; congruence.
-  - apply (i2c_length_unrot n); auto.
-  - intros k Hk. unfold vadd, vsub.
-    rewrite (map2_nth Qplus _ _ 0 0 0) by (rewrite ?L1; try lia; rewrite map2_length; rewrite map_length; rewrite map2_length; rewrite ?L1; congruence).
-    rewrite (map2_nth (fun d m => d * inject_Z m) _ _ 0 0%Z 0) by (rewrite map_length; rewrite map2_length; rewrite ?L1; congruence).
-    rewrite (map_nth' (fun v => v / 2) _ 0) by (rewrite map2_length; rewrite ?L1; congruence).
-    rewrite (map2_nth Qminus _ _ 0 0 0) by (rewrite ?L1; congruence).
-    rewrite !(i2c_nth_unrot n) by auto.
-    rewrite zerosZ_nth. rewrite !constQ_nth by lia.
-    rewrite (map_nth' (fun m : Z => (inject_Z m - 1) / 2) nmult 0%Z) by lia.
-    field.
-Qed.
-
-Lemma divider_x0_unrot n g nmult fc : unrotated g -> wflen n g -> length nmult = n ->
-  Forall (fun m => (0 < m)%Z) nmult ->
-  eqlQ (snd (divider g nmult fc)) (spec_divider_x0 g nmult fc).
-Proof.
-  intros Hu Hw Hm Hpos. pose proof Hw as (Hnx & Hx0 & Hdx).
-  unfold divider, spec_divider_x0, frac_node, node. simpl. destruct fc; [|].
-  2:{ assert (L0' : length (zerosZ g) = n) by (rewrite zerosZ_length; exact Hnx).
-      assert (Le : (@nil Q) = [] \/ length (@nil Q) = n) by (left; reflexivity).
-      apply (eqlQ_nth n); [exact Hx0|apply (i2c_length_unrot n); assumption|].
-      intros k Hk. rewrite (i2c_nth_unrot n) by assumption.
-      rewrite zerosZ_nth. replace (nth k (@nil Q) 0) with 0 by (destruct k; reflexivity). ring. }
-  assert (L0 : length (zerosZ g) = n) by (rewrite zerosZ_length; exact Hnx).
-  assert (Lc : forall q, constQ g q = [] \/ length (constQ g q) = n) by (intros q; right; rewrite constQ_length; exact Hnx).
-  assert (L1 : forall q, length (i2c g (zerosZ g) (constQ g q) true) = n) by (intros q; apply (i2c_length_unrot n); auto).
-  assert (Ls : length (map (fun m : Z => - (1 # 2) + 1 / (2 * inject_Z m)) nmult) = n) by (rewrite map_length; exact Hm).
-  apply (eqlQ_nth n).
-  - unfold vadd, vsub. rewrite map2_length; [apply L1|]. rewrite L1. rewrite map2_length; rewrite map_length; rewrite map2_length; rewrite ?L1; congruence.
-  - apply (i2c_length_unrot n); auto.
-  - intros k Hk. unfold vadd, vsub.
-    rewrite (map2_nth Qplus _ _ 0 0 0) by (rewrite ?L1; try lia; rewrite map2_length; rewrite map_length; rewrite map2_length; rewrite ?L1; congruence).
-    rewrite (map2_nth (fun d m => d / inject_Z m) _ _ 0 0%Z 0) by (rewrite map_length; rewrite map2_length; rewrite ?L1; congruence).
-    rewrite (map_nth' (fun v => v / 2) _ 0) by (rewrite map2_length; rewrite ?L1; congruence).
-    rewrite (map2_nth Qminus _ _ 0 0 0) by (rewrite ?L1; congruence).
-    rewrite !(i2c_nth_unrot n) by auto.
-    rewrite zerosZ_nth. rewrite !constQ_nth by lia.
-    rewrite (map_nth' (fun m : Z => - (1 # 2) + 1 / (2 * inject_Z m)) nmult 0%Z) by lia.
-    assert (Hmk : (0 < nth k nmult 0)%Z) by (rewrite Forall_forall in Hpos; apply Hpos; apply nth_In; lia).
-    assert (Hq : 0 < inject_Z (nth k nmult 0%Z)) by (change 0 with (inject_Z 0); rewrite <- Zlt_Qlt; exact Hmk).
-    field. lra.
-Qed.
-
-(* counts and meshes *)
-Lemma multiple_dx g nmult fc : snd (fst (multiple g nmult fc)) = map2 (fun d m => d * inject_Z m) (g_dx g) nmult.
-Proof. reflexivity. Qed.
-Lemma divider_dx g nmult fc : snd (fst (divider g nmult fc)) = map2 (fun d m => d / inject_Z m) (g_dx g) nmult.
-Proof. reflexivity. Qed.
-
-(* node j of a grid derived from an unrotated parent: if the mesh is sc*dx and the origin sits at fractional
-   index off of the parent, node j sits at fractional index j*sc + off of the parent *)
-Lemma node_affine_unrot n g g' j sc off pos :
-  unrotated g -> unrotated g' -> wflen n g -> wflen n g' -> length j = n ->
-  (off = [] \/ length off = n) -> length pos = n ->
-  (forall k, (k < n)%nat -> nth k (g_dx g') 0 == nth k sc 0 * nth k (g_dx g) 0) ->
-  eqlQ (g_x0 g') (frac_node g (zerosZ g) off) ->
-  (forall k, (k < n)%nat -> nth k pos 0 == inject_Z (nth k j 0%Z) * nth k sc 0 + nth k off 0) ->
-  eqlQ (node g' j) (frac_node g (zerosZ g) pos).
-Proof.
-  intros Hu Hu' Hw Hw' Hj Hoff Hpos Hdx' Hx0' Hp. pose proof Hw as (Hnx & Hx0 & Hdx).
-  assert (L0 : length (zerosZ g) = n) by (rewrite zerosZ_length; exact Hnx).
-  assert (Le : (@nil Q) = [] \/ length (@nil Q) = n) by (left; reflexivity).
-  unfold node, frac_node in *.
-  apply (eqlQ_nth n); [apply (i2c_length_unrot n); auto|apply (i2c_length_unrot n); auto|].
-  intros k Hk. rewrite !(i2c_nth_unrot n) by auto.
-  pose proof (eqlQ_nth' _ _ k Hx0') as E. rewrite (i2c_nth_unrot n) in E by auto.
-  rewrite E, (Hdx' k Hk), (Hp k Hk). rewrite zerosZ_nth.
-  replace (nth k (@nil Q) 0) with 0 by (destruct k; reflexivity). ring.
-Qed.
-
-Lemma derived_unrot g p : unrotated g -> unrotated (derived g p).
-Proof. intros H. exact H. Qed.
-
-(* coarsened grid (cell or point matching) of an unrotated parent: node j is the barycentre of the parent
-   nodes j*m .. j*m+m-1 (fractional index j*m + (m-1)/2), resp. the parent node j*m *)
-Lemma coarse_nodes_unrot n g nmult fc j :
-  unrotated g -> wflen n g -> length nmult = n -> length j = n ->
-  eqlQ (node (derived g (multiple g nmult fc)) j)
-       (frac_node g (zerosZ g) (map2 (fun jj m => inject_Z jj * inject_Z m + (if fc then (inject_Z m - 1) / 2 else 0)) j nmult)).
-Proof.
-  intros Hu Hw Hm Hj. pose proof Hw as (Hnx & Hx0 & Hdx).
-  pose proof (multiple_x0_unrot n g nmult fc Hu Hw Hm) as HX.
-  assert (Hw' : wflen n (derived g (multiple g nmult fc))).
-  { assert (L0 : length (zerosZ g) = n) by (rewrite zerosZ_length; exact Hnx).
-    unfold wflen, derived. cbn [g_nx g_x0 g_dx]. split; [|split].
-    - unfold multiple. cbn [fst]. rewrite map2_length; congruence.
-    - rewrite (eqlQ_length _ _ HX). unfold spec_multiple_x0, frac_node, node.
-      destruct fc; apply (i2c_length_unrot n); auto; try (right; rewrite map_length; exact Hm).
-    - unfold multiple. cbn [fst snd]. rewrite map2_length; congruence. }
-  apply (node_affine_unrot n g _ j (map inject_Z nmult) (if fc then map (fun m => (inject_Z m - 1) / 2) nmult else [])); auto.
-  - destruct fc; [right; rewrite map_length; exact Hm|left; reflexivity].
-  - rewrite map2_length; congruence.
-  - intros k Hk. unfold derived. simpl.
-    rewrite (map2_nth (fun d m => d * inject_Z m) _ _ 0 0%Z 0) by congruence.
-    rewrite (map_nth' inject_Z nmult 0%Z) by lia. ring.
-  - unfold derived. simpl. unfold spec_multiple_x0, frac_node, node in HX. destruct fc; exact HX.
-  - intros k Hk.
-    rewrite (map2_nth (fun jj m => inject_Z jj * inject_Z m + (if fc then (inject_Z m - 1) / 2 else 0)) _ _ 0%Z 0%Z 0) by congruence.
-    rewrite (map_nth' inject_Z nmult 0%Z) by lia.
-    destruct fc; [rewrite (map_nth' (fun m => (inject_Z m - 1) / 2) nmult 0%Z) by lia; reflexivity|].
-    replace (nth k (@nil Q) 0) with 0 by (destruct k; reflexivity). reflexivity.
-Qed.
-
-(* refined grid of an unrotated parent: node j sits at fractional index j/m - 1/2 + 1/(2m) (cell matching),
-   resp. j/m (point matching) of the parent *)
-Lemma refine_nodes_unrot n g nmult fc j :
-  unrotated g -> wflen n g -> length nmult = n -> length j = n -> Forall (fun m => (0 < m)%Z) nmult ->
-  eqlQ (node (derived g (divider g nmult fc)) j)
-       (frac_node g (zerosZ g) (map2 (fun jj m => inject_Z jj / inject_Z m + (if fc then - (1 # 2) + 1 / (2 * inject_Z m) else 0)) j nmult)).
-Proof.
-  intros Hu Hw Hm Hj Hpos. pose proof Hw as (Hnx & Hx0 & Hdx).
-  pose proof (divider_x0_unrot n g nmult fc Hu Hw Hm Hpos) as HX.
-  assert (Hw' : wflen n (derived g (divider g nmult fc))).
-  { assert (L0 : length (zerosZ g) = n) by (rewrite zerosZ_length; exact Hnx).
-    unfold wflen, derived. cbn [g_nx g_x0 g_dx]. split; [|split].
-    - unfold divider. cbn [fst]. rewrite map2_length; congruence.
-    - rewrite (eqlQ_length _ _ HX). unfold spec_divider_x0, frac_node, node.
-      destruct fc; apply (i2c_length_unrot n); auto; try (right; rewrite map_length; exact Hm).
-    - unfold divider. cbn [fst snd]. rewrite map2_length; congruence. }
-  apply (node_affine_unrot n g _ j (map (fun m => 1 / inject_Z m) nmult) (if fc then map (fun m => - (1 # 2) + 1 / (2 * inject_Z m)) nmult else [])); auto.
-  - destruct fc; [right; rewrite map_length; exact Hm|left; reflexivity].
-  - rewrite map2_length; congruence.
-  - intros k Hk. unfold derived. simpl.
-    rewrite (map2_nth (fun d m => d / inject_Z m) _ _ 0 0%Z 0) by congruence.
-    rewrite (map_nth' (fun m => 1 / inject_Z m) nmult 0%Z) by lia.
-    assert (Hmk : (0 < nth k nmult 0)%Z) by (rewrite Forall_forall in Hpos; apply Hpos; apply nth_In; lia).
-    assert (Hq : 0 < inject_Z (nth k nmult 0%Z)) by (change 0 with (inject_Z 0); rewrite <- Zlt_Qlt; exact Hmk).
-    field. lra.
-  - unfold derived. simpl. unfold spec_divider_x0, frac_node, node in HX. destruct fc; exact HX.
-  - intros k Hk.
-    rewrite (map2_nth (fun jj m => inject_Z jj / inject_Z m + (if fc then - (1 # 2) + 1 / (2 * inject_Z m) else 0)) _ _ 0%Z 0%Z 0) by congruence.
-    rewrite (map_nth' (fun m => 1 / inject_Z m) nmult 0%Z) by lia.
-    assert (Hmk : (0 < nth k nmult 0)%Z) by (rewrite Forall_forall in Hpos; apply Hpos; apply nth_In; lia).
-    assert (Hq : 0 < inject_Z (nth k nmult 0%Z)) by (change 0 with (inject_Z 0); rewrite <- Zlt_Qlt; exact Hmk).
-    destruct fc; [rewrite (map_nth' (fun m => - (1 # 2) + 1 / (2 * inject_Z m)) nmult 0%Z) by lia; field; lra|].
-    replace (nth k (@nil Q) 0) with 0 by (destruct k; reflexivity). field. lra.
-Qed.
-
-(* ---- Grid::dilate: what the code computes, and that it is not what it is documented to compute *)
-Lemma dilate_x0_unrot n g mode nshift p : unrotated g -> wflen n g -> length nshift = n ->
-  dilate g mode nshift = Some p ->
-  eqlQ (snd p) (node g (map (fun s => (- (2 * mode) * s)%Z) nshift)).
-Proof.
-  intros Hu Hw Hs Hd. pose proof Hw as (Hnx & Hx0 & Hdx).
-  unfold dilate in Hd. destruct (existsb _ _); [discriminate|]. inversion Hd; subst p; clear Hd. simpl.
-  set (ind := map (fun s : Z => (- mode * s)%Z) nshift).
-  assert (Li : length ind = n) by (unfold ind; rewrite map_length; exact Hs).
-  assert (Lq : length (map inject_Z ind) = n) by (rewrite map_length; exact Li).
-  assert (L2 : length (map (fun s : Z => (- (2 * mode) * s)%Z) nshift) = n) by (rewrite map_length; exact Hs).
-  unfold node.
-  apply (eqlQ_nth n); [apply (i2c_length_unrot n); auto|apply (i2c_length_unrot n); auto|].
-  intros k Hk. rewrite !(i2c_nth_unrot n) by auto.
-  rewrite (map_nth' inject_Z ind 0%Z) by lia. unfold ind.
-  rewrite (map_nth' (fun s : Z => (- mode * s)%Z) nshift 0%Z) by lia.
-  rewrite (map_nth' (fun s : Z => (- (2 * mode) * s)%Z) nshift 0%Z) by lia.
-  replace (nth k (@nil Q) 0) with 0 by (destruct k; reflexivity).
-  rewrite <- inject_Z_plus.
-  replace (- mode * nth k nshift 0 + - mode * nth k nshift 0)%Z with (- (2 * mode) * nth k nshift 0)%Z by ring.
-  ring.
-Qed.
-
-(* ---- DbGrid::createSubGrid, unrotated: node 0 of the sub-grid is parent node lim0 *)
-Lemma subgrid_x0_unrot n g lim0 lim1 : unrotated g -> wflen n g -> length lim0 = n ->
-  eqlQ (g_x0 (subgrid g lim0 lim1)) (spec_subgrid_x0 g lim0).
-Proof.
-  intros Hu Hw Hl. pose proof Hw as (Hnx & Hx0 & Hdx). unfold subgrid, spec_subgrid_x0, node. simpl.
-  apply (eqlQ_nth n).
-  - unfold vadd. rewrite map2_length; [exact Hx0|]. rewrite map2_length; congruence.
-  - apply (i2c_length_unrot n); auto.
-  - intros k Hk. rewrite (i2c_nth_unrot n) by auto. unfold vadd.
-    rewrite (map2_nth Qplus _ _ 0 0 0) by (try lia; rewrite map2_length; congruence).
-    rewrite (map2_nth (fun l d => inject_Z l * d) _ _ 0%Z 0 0) by (try lia; congruence).
-    replace (nth k (@nil Q) 0) with 0 by (destruct k; reflexivity). ring.
-Qed.
-
-(* ---- rotated grid, same multiplicity m on every axis: the origin of multiple / divider is right *)
-Definition rotated (g : grid) : Prop := r_flag (g_rot g) = true.
-
-Lemma i2c_nth_rot n g ind pc k : rotated g -> wfmat n (r_mat (g_rot g)) -> wflen n g -> (k < n)%nat ->
-  nth k (i2c g ind pc true) 0 = dot (nth k (r_mat (g_rot g)) []) (scaled g ind pc) + nth k (g_x0 g) 0.
-Proof.
-  intros Hr [HM _] (Hnx & Hx0 & Hdx) Hk. unfold i2c, rotate_direct, vadd. rewrite Hr.
-  rewrite (map2_nth Qplus _ _ 0 0 0) by (rewrite length_mvec; congruence).
-  rewrite nth_mvec. reflexivity.
-Qed.
-Lemma i2c_length_rot n g ind pc : rotated g -> wfmat n (r_mat (g_rot g)) -> wflen n g -> length (i2c g ind pc true) = n.
-Proof.
-  intros Hr [HM _] (Hnx & Hx0 & Hdx). unfold i2c, rotate_direct, vadd. rewrite Hr.
-  rewrite map2_length; rewrite length_mvec; congruence.
-Qed.
 Lemma scaled_nth n g ind pc k : wflen n g -> length ind = n -> (pc = [] \/ length pc = n) -> (k < n)%nat ->
   nth k (scaled g ind pc) 0 = (inject_Z (nth k ind 0%Z) + nth k pc 0) * nth k (g_dx g) 0.
 Proof.
@@ -276,77 +47,315 @@ Proof.
   pose proof (pz_length ind pc n Hi Hp) as Lz.
   rewrite map2_length; rewrite map2_length; congruence.
 Qed.
-(* along row r of the rotation matrix, a position at the same fractional index q on every axis *)
-Lemma dot_scaled_uniform n g r pc q : wflen n g -> length r = n -> length pc = n ->
-  (forall j, (j < n)%nat -> nth j pc 0 == q) ->
-  dot r (scaled g (zerosZ g) pc) == q * sumQ n (fun j => nth j r 0 * nth j (g_dx g) 0).
+
+(* component k of the (possibly) rotated vector *)
+Definition rowapp (g : grid) (k : nat) (v : list Q) : Q :=
+  if r_flag (g_rot g) then dot (nth k (r_mat (g_rot g)) []) v else nth k v 0.
+
+Lemma rotate_direct_nth n g v k : gridok n g -> length v = n -> (k < n)%nat ->
+  nth k (rotate_direct (g_rot g) v) 0 = rowapp g k v.
 Proof.
-  intros Hw Hr Hp Hq. pose proof Hw as (Hnx & Hx0 & Hdx).
+  intros [_ Hr] Hv Hk. unfold rotate_direct, rowapp. destruct (r_flag (g_rot g)); [|reflexivity].
+  apply nth_mvec.
+Qed.
+Lemma rotate_direct_len n g v : gridok n g -> length v = n -> length (rotate_direct (g_rot g) v) = n.
+Proof.
+  intros [_ Hr] Hv. unfold rotate_direct. destruct (r_flag (g_rot g)) eqn:E; [|exact Hv].
+  destruct Hr as [Hr|[HW _]]; [discriminate|]. rewrite length_mvec. exact HW.
+Qed.
+
+Lemma rowapp_ext n g k a b : gridok n g -> length a = n -> length b = n -> (k < n)%nat ->
+  (forall i, (i < n)%nat -> nth i a 0 == nth i b 0) -> rowapp g k a == rowapp g k b.
+Proof.
+  intros [_ Hr] Ha Hb Hk H. unfold rowapp. destruct (r_flag (g_rot g)) eqn:E; [|apply H; exact Hk].
+  destruct Hr as [Hr|HW]; [discriminate|].
+  apply dot_proper_r. apply (eqlQ_nth n); assumption.
+Qed.
+Lemma rowapp_add n g k a b c : gridok n g -> length a = n -> length b = n -> length c = n -> (k < n)%nat ->
+  (forall i, (i < n)%nat -> nth i c 0 == nth i a 0 + nth i b 0) -> rowapp g k c == rowapp g k a + rowapp g k b.
+Proof.
+  intros [_ Hr] Ha Hb Hc Hk H. unfold rowapp. destruct (r_flag (g_rot g)) eqn:E; [|apply H; exact Hk].
+  destruct Hr as [Hr|HW]; [discriminate|].
+  assert (Lr : length (nth k (r_mat (g_rot g)) []) = n) by (apply wfmat_row; assumption).
+  rewrite !(dot_sum n) by assumption. rewrite <- sumQ_plus. apply sumQ_ext. intros i Hi. rewrite (H i Hi). ring.
+Qed.
+Lemma rowapp_zero n g k a : gridok n g -> length a = n -> (k < n)%nat ->
+  (forall i, (i < n)%nat -> nth i a 0 == 0) -> rowapp g k a == 0.
+Proof.
+  intros Hg Ha Hk H.
+  assert (E : rowapp g k a == rowapp g k a + rowapp g k a).
+  { apply (rowapp_add n); auto. intros i Hi. rewrite (H i Hi). ring. }
+  lra.
+Qed.
+
+(* component k of a position of the grid *)
+Lemma i2c_length n g ind pc : gridok n g -> length ind = n -> (pc = [] \/ length pc = n) ->
+  length (i2c g ind pc true) = n.
+Proof.
+  intros Hg Hi Hp. pose proof Hg as [Hw _]. pose proof Hw as (Hnx & Hx0 & Hdx). unfold i2c, vadd.
+  rewrite map2_length; rewrite (rotate_direct_len n); auto; try congruence; apply (scaled_length n); auto.
+Qed.
+Lemma i2c_nth n g ind pc k : gridok n g -> length ind = n -> (pc = [] \/ length pc = n) -> (k < n)%nat ->
+  nth k (i2c g ind pc true) 0 = rowapp g k (scaled g ind pc) + nth k (g_x0 g) 0.
+Proof.
+  intros Hg Hi Hp Hk. pose proof Hg as [Hw _]. pose proof Hw as (Hnx & Hx0 & Hdx). unfold i2c, vadd.
+  assert (Ls : length (scaled g ind pc) = n) by (apply (scaled_length n); auto).
+  rewrite (map2_nth Qplus _ _ 0 0 0) by (rewrite (rotate_direct_len n); auto; congruence).
+  rewrite (rotate_direct_nth n) by auto. reflexivity.
+Qed.
+(* getCoordinatesByIndice without shift *)
+Lemma cbi_length n g ind : gridok n g -> length ind = n -> length (coords_by_indice g ind true [] []) = n.
+Proof.
+  intros Hg Hi. pose proof Hg as [Hw _]. pose proof Hw as (Hnx & Hx0 & Hdx). unfold coords_by_indice, vadd.
+  rewrite map2_length; rewrite (rotate_direct_len n); auto; try congruence; rewrite map2_length; congruence.
+Qed.
+Lemma cbi_nth n g ind k : gridok n g -> length ind = n -> (k < n)%nat ->
+  nth k (coords_by_indice g ind true [] []) 0 =
+  rowapp g k (map2 (fun i d => inject_Z i * d) ind (g_dx g)) + nth k (g_x0 g) 0.
+Proof.
+  intros Hg Hi Hk. pose proof Hg as [Hw _]. pose proof Hw as (Hnx & Hx0 & Hdx). unfold coords_by_indice, vadd.
+  assert (Ls : length (map2 (fun i d => inject_Z i * d) ind (g_dx g)) = n) by (rewrite map2_length; congruence).
+  rewrite (map2_nth Qplus _ _ 0 0 0) by (rewrite (rotate_direct_len n); auto; congruence).
+  rewrite (rotate_direct_nth n) by auto. reflexivity.
+Qed.
+
+Lemma zerosZ_length g : length (zerosZ g) = length (g_nx g).
+Proof. apply map_length. Qed.
+Lemma zerosZ_nth g k : nth k (zerosZ g) 0%Z = 0%Z.
+Proof.
+  unfold zerosZ. destruct (Nat.lt_ge_cases k (length (g_nx g))) as [H|H].
+  - apply (map_nth' (fun _ => 0%Z) (g_nx g) 0%Z). exact H.
+  - apply nth_overflow. rewrite map_length. exact H.
+Qed.
+
+(* two positions with the same fractional indices coincide *)
+Lemma i2c_ext n g ind ind' pc pc' : gridok n g -> length ind = n -> length ind' = n ->
+  (pc = [] \/ length pc = n) -> (pc' = [] \/ length pc' = n) ->
+  (forall i, (i < n)%nat -> inject_Z (nth i ind 0%Z) + nth i pc 0 == inject_Z (nth i ind' 0%Z) + nth i pc' 0) ->
+  eqlQ (i2c g ind pc true) (i2c g ind' pc' true).
+Proof.
+  intros Hg Hi Hi' Hp Hp' H. pose proof Hg as [Hw _].
+  apply (eqlQ_nth n); [apply (i2c_length n); auto|apply (i2c_length n); auto|].
+  intros k Hk. rewrite !(i2c_nth n) by auto.
+  rewrite (rowapp_ext n g k (scaled g ind pc) (scaled g ind' pc')); auto; try (apply (scaled_length n); auto); [reflexivity|].
+  intros i Hii. rewrite !(scaled_nth n) by auto. rewrite (H i Hii). reflexivity.
+Qed.
+
+(* the origin is node 0 *)
+Lemma x0_is_node0 n g : gridok n g -> eqlQ (g_x0 g) (node g (zerosZ g)).
+Proof.
+  intros Hg. pose proof Hg as [Hw _]. pose proof Hw as (Hnx & Hx0 & Hdx). unfold node.
   assert (L0 : length (zerosZ g) = n) by (rewrite zerosZ_length; exact Hnx).
-  rewrite (dot_sum n) by (try assumption; apply scaled_length; auto).
-  rewrite <- sumQ_scale. apply sumQ_ext. intros j Hj. rewrite (scaled_nth n) by auto.
-  rewrite zerosZ_nth, (Hq j Hj). change (inject_Z 0) with 0. ring.
+  assert (Le : (@nil Q) = [] \/ length (@nil Q) = n) by (left; reflexivity).
+  apply (eqlQ_nth n); [exact Hx0|apply (i2c_length n); auto|].
+  intros k Hk. rewrite (i2c_nth n) by auto.
+  rewrite (rowapp_zero n) ; auto; [ring|apply (scaled_length n); auto|].
+  intros i Hi. rewrite (scaled_nth n) by auto. rewrite zerosZ_nth, nth_nil_Q. change (inject_Z 0) with 0. ring.
 Qed.
 
-Definition uniform (m : Z) (nmult : list Z) : Prop := Forall (fun x => x = m) nmult.
-Lemma uniform_nth m nmult k : uniform m nmult -> (k < length nmult)%nat -> nth k nmult 0%Z = m.
-Proof. intros H Hk. unfold uniform in H. rewrite Forall_forall in H. apply H. apply nth_In. exact Hk. Qed.
-
-Lemma multiple_x0_rot_uniform n g nmult m : rotated g -> wfmat n (r_mat (g_rot g)) -> wflen n g ->
-  length nmult = n -> uniform m nmult ->
-  eqlQ (snd (multiple g nmult true)) (spec_multiple_x0 g nmult true).
+(* ---- origins of Grid::multiple / divider / dilate / sub-grid: where the documented meaning puts them *)
+Lemma multiple_x0 n g nmult fc : gridok n g -> length nmult = n ->
+  eqlQ (snd (multiple g nmult fc)) (spec_multiple_x0 g nmult fc).
 Proof.
-  intros Hr HM Hw Hm Hu. pose proof Hw as (Hnx & Hx0 & Hdx).
-  unfold multiple, spec_multiple_x0, frac_node. cbn [snd].
-  assert (L1 : forall pc, length (i2c g (zerosZ g) pc true) = n) by (intros pc; apply (i2c_length_rot n); assumption).
-  assert (Lc : forall q, length (constQ g q) = n) by (intros q; rewrite constQ_length; exact Hnx).
-  assert (Ls : length (map (fun m0 : Z => (inject_Z m0 - 1) / 2) nmult) = n) by (rewrite map_length; exact Hm).
-  apply (eqlQ_nth n).
-  - unfold vadd, vsub. rewrite map2_length; [apply L1|]. rewrite L1. rewrite map2_length; rewrite map_length; rewrite map2_length; rewrite ?L1; congruence.
-  - apply L1.
-  - intros k Hk. unfold vadd, vsub.
-    rewrite (map2_nth Qplus _ _ 0 0 0) by (rewrite ?L1; try lia; rewrite map2_length; rewrite map_length; rewrite map2_length; rewrite ?L1; congruence).
-    rewrite (map2_nth (fun d m0 => d * inject_Z m0) _ _ 0 0%Z 0) by (rewrite map_length; rewrite map2_length; rewrite ?L1; congruence).
-    rewrite (map_nth' (fun v => v / 2) _ 0) by (rewrite map2_length; rewrite ?L1; congruence).
-    rewrite (map2_nth Qminus _ _ 0 0 0) by (rewrite ?L1; congruence).
-    rewrite !(i2c_nth_rot n) by assumption.
-    rewrite (uniform_nth m) by (try assumption; lia).
-    set (r := nth k (r_mat (g_rot g)) []).
-    assert (Lr : length r = n) by (apply wfmat_row; assumption).
-    rewrite (dot_scaled_uniform n g r _ (- (1 # 2))) by (auto; intros j Hj; rewrite constQ_nth by lia; reflexivity).
-    rewrite (dot_scaled_uniform n g r _ (1 # 2)) by (auto; intros j Hj; rewrite constQ_nth by lia; reflexivity).
-    rewrite (dot_scaled_uniform n g r _ ((inject_Z m - 1) / 2)); auto.
-    + field.
-    + intros j Hj. rewrite (map_nth' (fun m0 : Z => (inject_Z m0 - 1) / 2) nmult 0%Z) by lia.
-      rewrite (uniform_nth m) by (try assumption; lia). reflexivity.
+  intros Hg Hm. unfold multiple, spec_multiple_x0, frac_node. cbn [snd].
+  destruct fc; [apply eqlQ_refl|apply (x0_is_node0 n); exact Hg].
 Qed.
-
-Lemma divider_x0_rot_uniform n g nmult m : rotated g -> wfmat n (r_mat (g_rot g)) -> wflen n g ->
-  length nmult = n -> uniform m nmult -> (0 < m)%Z ->
-  eqlQ (snd (divider g nmult true)) (spec_divider_x0 g nmult true).
+Lemma divider_x0 n g nmult fc : gridok n g -> length nmult = n -> Forall (fun m => (0 < m)%Z) nmult ->
+  eqlQ (snd (divider g nmult fc)) (spec_divider_x0 g nmult fc).
 Proof.
-  intros Hr HM Hw Hm Hu Hpos. pose proof Hw as (Hnx & Hx0 & Hdx).
+  intros Hg Hm Hpos. pose proof Hg as [Hw _]. pose proof Hw as (Hnx & Hx0 & Hdx).
   unfold divider, spec_divider_x0, frac_node. cbn [snd].
-  assert (L1 : forall pc, length (i2c g (zerosZ g) pc true) = n) by (intros pc; apply (i2c_length_rot n); assumption).
-  assert (Lc : forall q, length (constQ g q) = n) by (intros q; rewrite constQ_length; exact Hnx).
-  assert (Ls : length (map (fun m0 : Z => - (1 # 2) + 1 / (2 * inject_Z m0)) nmult) = n) by (rewrite map_length; exact Hm).
-  assert (Hq : 0 < inject_Z m) by (change 0 with (inject_Z 0); rewrite <- Zlt_Qlt; exact Hpos).
-  apply (eqlQ_nth n).
-  - unfold vadd, vsub. rewrite map2_length; [apply L1|]. rewrite L1. rewrite map2_length; rewrite map_length; rewrite map2_length; rewrite ?L1; congruence.
-  - apply L1.
-  - intros k Hk. unfold vadd, vsub.
-    rewrite (map2_nth Qplus _ _ 0 0 0) by (rewrite ?L1; try lia; rewrite map2_length; rewrite map_length; rewrite map2_length; rewrite ?L1; congruence).
-    rewrite (map2_nth (fun d m0 => d / inject_Z m0) _ _ 0 0%Z 0) by (rewrite map_length; rewrite map2_length; rewrite ?L1; congruence).
-    rewrite (map_nth' (fun v => v / 2) _ 0) by (rewrite map2_length; rewrite ?L1; congruence).
-    rewrite (map2_nth Qminus _ _ 0 0 0) by (rewrite ?L1; congruence).
-    rewrite !(i2c_nth_rot n) by assumption.
-    rewrite (uniform_nth m) by (try assumption; lia).
-    set (r := nth k (r_mat (g_rot g)) []).
-    assert (Lr : length r = n) by (apply wfmat_row; assumption).
-    rewrite (dot_scaled_uniform n g r _ (- (1 # 2))) by (auto; intros j Hj; rewrite constQ_nth by lia; reflexivity).
-    rewrite (dot_scaled_uniform n g r _ (1 # 2)) by (auto; intros j Hj; rewrite constQ_nth by lia; reflexivity).
-    rewrite (dot_scaled_uniform n g r _ (- (1 # 2) + 1 / (2 * inject_Z m))); auto.
-    + field. lra.
-    + intros j Hj. rewrite (map_nth' (fun m0 : Z => - (1 # 2) + 1 / (2 * inject_Z m0)) nmult 0%Z) by lia.
-      rewrite (uniform_nth m) by (try assumption; lia). reflexivity.
+  destruct fc; [|apply (x0_is_node0 n); exact Hg].
+  assert (L0 : length (zerosZ g) = n) by (rewrite zerosZ_length; exact Hnx).
+  apply (i2c_ext n); auto; try (right; rewrite map_length; exact Hm).
+  intros i Hi.
+  rewrite (map_nth' (fun m => - (1 # 2) + (1 # 2) / inject_Z m) nmult 0%Z) by lia.
+  rewrite (map_nth' (fun m => - (1 # 2) + 1 / (2 * inject_Z m)) nmult 0%Z) by lia.
+  assert (Hmk : (0 < nth i nmult 0)%Z) by (rewrite Forall_forall in Hpos; apply Hpos; apply nth_In; lia).
+  assert (Hq : 0 < inject_Z (nth i nmult 0%Z)) by (change 0 with (inject_Z 0); rewrite <- Zlt_Qlt; exact Hmk).
+  field. lra.
+Qed.
+Lemma dilate_x0 g mode nshift p : dilate g mode nshift = Some p -> snd p = spec_dilate_x0 g mode nshift.
+Proof.
+  unfold dilate. destruct (existsb _ _); [discriminate|]. intros H. inversion H. reflexivity.
+Qed.
+Lemma subgrid_x0 n g lim0 lim1 : gridok n g -> length lim0 = n ->
+  eqlQ (g_x0 (subgrid g lim0 lim1)) (spec_subgrid_x0 g lim0).
+Proof.
+  intros Hg Hl. pose proof Hg as [Hw _]. pose proof Hw as (Hnx & Hx0 & Hdx).
+  unfold subgrid, spec_subgrid_x0, node. cbn [g_x0].
+  assert (Le : (@nil Q) = [] \/ length (@nil Q) = n) by (left; reflexivity).
+  apply (eqlQ_nth n); [apply (cbi_length n); auto|apply (i2c_length n); auto|].
+  intros k Hk. rewrite (cbi_nth n), (i2c_nth n) by auto.
+  rewrite (rowapp_ext n g k _ (scaled g lim0 [])); auto; [reflexivity|rewrite map2_length; congruence|apply (scaled_length n); auto|].
+  intros i Hi. rewrite (scaled_nth n) by auto.
+  rewrite (map2_nth (fun i0 d => inject_Z i0 * d) _ _ 0%Z 0 0) by congruence. rewrite nth_nil_Q. ring.
+Qed.
+
+(* ---- every node of a derived grid.
+   If the derived grid has the same rotation, mesh sc*dx and its origin at fractional index off of the parent,
+   node j sits at fractional index j*sc + off of the parent. *)
+Lemma node_affine n g g' j sc off pos :
+  gridok n g -> wflen n g' -> g_rot g' = g_rot g -> length j = n ->
+  (off = [] \/ length off = n) -> length pos = n ->
+  (forall k, (k < n)%nat -> nth k (g_dx g') 0 == nth k sc 0 * nth k (g_dx g) 0) ->
+  eqlQ (g_x0 g') (frac_node g (zerosZ g) off) ->
+  (forall k, (k < n)%nat -> nth k pos 0 == inject_Z (nth k j 0%Z) * nth k sc 0 + nth k off 0) ->
+  eqlQ (node g' j) (frac_node g (zerosZ g) pos).
+Proof.
+  intros Hg Hw' Hrot Hj Hoff Hpos Hdx' Hx0' Hp.
+  pose proof Hg as [Hw Hr]. pose proof Hw as (Hnx & Hx0 & Hdx).
+  assert (Hg' : gridok n g') by (split; [exact Hw'|rewrite Hrot; exact Hr]).
+  assert (L0 : length (zerosZ g) = n) by (rewrite zerosZ_length; exact Hnx).
+  assert (Le : (@nil Q) = [] \/ length (@nil Q) = n) by (left; reflexivity).
+  unfold node, frac_node in *.
+  apply (eqlQ_nth n); [apply (i2c_length n); auto|apply (i2c_length n); auto|].
+  intros k Hk. rewrite !(i2c_nth n) by auto.
+  pose proof (eqlQ_nth' _ _ k Hx0') as E. rewrite (i2c_nth n) in E by auto. rewrite E.
+  assert (R : rowapp g' k (scaled g' j []) = rowapp g k (scaled g' j [])) by (unfold rowapp; rewrite Hrot; reflexivity).
+  rewrite R.
+  rewrite (rowapp_add n g k (scaled g' j []) (scaled g (zerosZ g) off) (scaled g (zerosZ g) pos)); auto;
+    try (apply (scaled_length n); auto); [ring|].
+  intros i Hi. rewrite !(scaled_nth n) by auto.
+  rewrite (Hdx' i Hi), (Hp i Hi). rewrite zerosZ_nth, nth_nil_Q. change (inject_Z 0) with 0. ring.
+Qed.
+
+Lemma derived_wflen n g p : length (fst (fst p)) = n -> length (snd (fst p)) = n -> length (snd p) = n -> wflen n (derived g p).
+Proof. intros. unfold wflen, derived. cbn [g_nx g_x0 g_dx]. auto. Qed.
+
+(* coarsened grid (cell or point matching), any parent: node j is the barycentre of the parent nodes
+   j*m .. j*m+m-1 (fractional index j*m + (m-1)/2), resp. the parent node j*m *)
+Lemma coarse_nodes n g nmult fc j :
+  gridok n g -> length nmult = n -> length j = n ->
+  eqlQ (node (derived g (multiple g nmult fc)) j)
+       (frac_node g (zerosZ g) (map2 (fun jj m => inject_Z jj * inject_Z m + (if fc then (inject_Z m - 1) / 2 else 0)) j nmult)).
+Proof.
+  intros Hg Hm Hj. pose proof Hg as [Hw _]. pose proof Hw as (Hnx & Hx0 & Hdx).
+  pose proof (multiple_x0 n g nmult fc Hg Hm) as HX.
+  assert (L0 : length (zerosZ g) = n) by (rewrite zerosZ_length; exact Hnx).
+  assert (Hw' : wflen n (derived g (multiple g nmult fc))).
+  { apply derived_wflen.
+    - unfold multiple. cbn [fst]. rewrite map2_length; congruence.
+    - unfold multiple. cbn [fst snd]. rewrite map2_length; congruence.
+    - rewrite (eqlQ_length _ _ HX). unfold spec_multiple_x0, frac_node, node.
+      destruct fc; apply (i2c_length n); auto; try (right; rewrite map_length; exact Hm). }
+  apply (node_affine n g _ j (map inject_Z nmult) (if fc then map (fun m => (inject_Z m - 1) / 2) nmult else [])); auto.
+  - destruct fc; [right; rewrite map_length; exact Hm|left; reflexivity].
+  - rewrite map2_length; congruence.
+  - intros k Hk. unfold derived, multiple. cbn [g_dx fst snd].
+    rewrite (map2_nth (fun d m => d * inject_Z m) _ _ 0 0%Z 0) by congruence.
+    rewrite (map_nth' inject_Z nmult 0%Z) by lia. ring.
+  - change (g_x0 (derived g (multiple g nmult fc))) with (snd (multiple g nmult fc)).
+    unfold spec_multiple_x0, frac_node, node in HX. destruct fc; exact HX.
+  - intros k Hk.
+    rewrite (map2_nth (fun jj m => inject_Z jj * inject_Z m + (if fc then (inject_Z m - 1) / 2 else 0)) _ _ 0%Z 0%Z 0) by congruence.
+    rewrite (map_nth' inject_Z nmult 0%Z) by lia.
+    destruct fc; [rewrite (map_nth' (fun m => (inject_Z m - 1) / 2) nmult 0%Z) by lia; reflexivity|].
+    rewrite nth_nil_Q. reflexivity.
+Qed.
+
+(* refined grid, any parent: node j sits at fractional index j/m - 1/2 + 1/(2m) (cell matching), resp. j/m *)
+Lemma refine_nodes n g nmult fc j :
+  gridok n g -> length nmult = n -> length j = n -> Forall (fun m => (0 < m)%Z) nmult ->
+  eqlQ (node (derived g (divider g nmult fc)) j)
+       (frac_node g (zerosZ g) (map2 (fun jj m => inject_Z jj / inject_Z m + (if fc then - (1 # 2) + 1 / (2 * inject_Z m) else 0)) j nmult)).
+Proof.
+  intros Hg Hm Hj Hpos. pose proof Hg as [Hw _]. pose proof Hw as (Hnx & Hx0 & Hdx).
+  pose proof (divider_x0 n g nmult fc Hg Hm Hpos) as HX.
+  assert (L0 : length (zerosZ g) = n) by (rewrite zerosZ_length; exact Hnx).
+  assert (Hw' : wflen n (derived g (divider g nmult fc))).
+  { apply derived_wflen.
+    - unfold divider. cbn [fst]. rewrite map2_length; congruence.
+    - unfold divider. cbn [fst snd]. rewrite map2_length; congruence.
+    - rewrite (eqlQ_length _ _ HX). unfold spec_divider_x0, frac_node, node.
+      destruct fc; apply (i2c_length n); auto; try (right; rewrite map_length; exact Hm). }
+  assert (Hq : forall k, (k < n)%nat -> 0 < inject_Z (nth k nmult 0%Z)).
+  { intros k Hk. change 0 with (inject_Z 0). rewrite <- Zlt_Qlt. rewrite Forall_forall in Hpos. apply Hpos. apply nth_In. lia. }
+  apply (node_affine n g _ j (map (fun m => 1 / inject_Z m) nmult) (if fc then map (fun m => - (1 # 2) + 1 / (2 * inject_Z m)) nmult else [])); auto.
+  - destruct fc; [right; rewrite map_length; exact Hm|left; reflexivity].
+  - rewrite map2_length; congruence.
+  - intros k Hk. unfold derived, divider. cbn [g_dx fst snd].
+    rewrite (map2_nth (fun d m => d / inject_Z m) _ _ 0 0%Z 0) by congruence.
+    rewrite (map_nth' (fun m => 1 / inject_Z m) nmult 0%Z) by lia.
+    pose proof (Hq k Hk). field. lra.
+  - change (g_x0 (derived g (divider g nmult fc))) with (snd (divider g nmult fc)).
+    unfold spec_divider_x0, frac_node, node in HX. destruct fc; exact HX.
+  - intros k Hk.
+    rewrite (map2_nth (fun jj m => inject_Z jj / inject_Z m + (if fc then - (1 # 2) + 1 / (2 * inject_Z m) else 0)) _ _ 0%Z 0%Z 0) by congruence.
+    rewrite (map_nth' (fun m => 1 / inject_Z m) nmult 0%Z) by lia.
+    pose proof (Hq k Hk).
+    destruct fc; [rewrite (map_nth' (fun m => - (1 # 2) + 1 / (2 * inject_Z m)) nmult 0%Z) by lia; field; lra|].
+    rewrite nth_nil_Q. field. lra.
+Qed.
+
+(* a grid with the same meshes and rotation whose origin is parent node s: node j is parent node j+s *)
+Lemma node_shift n g g' s j :
+  gridok n g -> wflen n g' -> g_rot g' = g_rot g -> g_dx g' = g_dx g -> length s = n -> length j = n ->
+  eqlQ (g_x0 g') (node g s) ->
+  eqlQ (node g' j) (node g (map2 Z.add j s)).
+Proof.
+  intros Hg Hw' Hrot Hdx' Hs Hj Hx0'.
+  pose proof Hg as [Hw Hr]. pose proof Hw as (Hnx & Hx0 & Hdx).
+  assert (Hg' : gridok n g') by (split; [exact Hw'|rewrite Hrot; exact Hr]).
+  assert (Le : (@nil Q) = [] \/ length (@nil Q) = n) by (left; reflexivity).
+  assert (Lj : length (map2 Z.add j s) = n) by (rewrite map2_length; congruence).
+  unfold node in *.
+  apply (eqlQ_nth n); [apply (i2c_length n); auto|apply (i2c_length n); auto|].
+  intros k Hk. rewrite !(i2c_nth n) by auto.
+  pose proof (eqlQ_nth' _ _ k Hx0') as E. rewrite (i2c_nth n) in E by auto. rewrite E.
+  assert (R : rowapp g' k (scaled g' j []) = rowapp g k (scaled g j [])).
+  { unfold rowapp, scaled. rewrite Hrot, Hdx'. reflexivity. }
+  rewrite R.
+  rewrite (rowapp_add n g k (scaled g j []) (scaled g s []) (scaled g (map2 Z.add j s) [])); auto;
+    try (apply (scaled_length n); auto); [ring|].
+  intros i Hi. rewrite !(scaled_nth n) by auto.
+  rewrite (map2_nth Z.add _ _ 0%Z 0%Z 0%Z) by congruence. rewrite inject_Z_plus, nth_nil_Q. ring.
+Qed.
+
+(* dilated grid: node j is parent node j - mode*nshift *)
+Lemma dilate_nodes n g mode nshift p j :
+  gridok n g -> length nshift = n -> length j = n -> dilate g mode nshift = Some p ->
+  eqlQ (node (derived g p) j) (node g (map2 Z.add j (map (fun s => (- mode * s)%Z) nshift))).
+Proof.
+  intros Hg Hs Hj Hd. pose proof Hg as [Hw _]. pose proof Hw as (Hnx & Hx0 & Hdx).
+  pose proof (dilate_x0 g mode nshift p Hd) as HX.
+  unfold dilate in Hd. destruct (existsb _ _); [discriminate|]. injection Hd as Hp. subst p.
+  assert (Li : length (map (fun s => (- mode * s)%Z) nshift) = n) by (rewrite map_length; exact Hs).
+  assert (Le : (@nil Q) = [] \/ length (@nil Q) = n) by (left; reflexivity).
+  apply (node_shift n g); [exact Hg| |reflexivity|reflexivity|exact Li|exact Hj|apply eqlQ_refl].
+  apply derived_wflen; cbn [fst snd]; [rewrite map2_length; congruence|exact Hdx|apply (i2c_length n); auto].
+Qed.
+
+(* sub-grid: node j is parent node j + lim0 *)
+Lemma subgrid_nodes n g lim0 lim1 j :
+  gridok n g -> length lim0 = n -> length lim1 = n -> length j = n ->
+  eqlQ (node (subgrid g lim0 lim1) j) (node g (map2 Z.add j lim0)).
+Proof.
+  intros Hg H0 H1 Hj. pose proof Hg as [Hw _]. pose proof Hw as (Hnx & Hx0 & Hdx).
+  apply (node_shift n g); [exact Hg| |reflexivity|reflexivity|exact H0|exact Hj|apply (subgrid_x0 n); auto].
+  unfold wflen, subgrid. cbn [g_nx g_x0 g_dx]. split; [rewrite map2_length; congruence|split; [apply (cbi_length n); auto|exact Hdx]].
+Qed.
+
+(* the fractional index j*m + (m-1)/2 is the mean of the parent indices j*m, ..., j*m + m-1 *)
+Lemma sumQ_const n c : sumQ n (fun _ => c) == inject_Z (Z.of_nat n) * c.
+Proof.
+  induction n as [|n IH]; [simpl; ring|].
+  change (sumQ (S n) (fun _ => c)) with (c + sumQ n (fun _ => c)). rewrite IH.
+  rewrite Nat2Z.inj_succ. unfold Z.succ. rewrite inject_Z_plus. change (inject_Z 1) with 1. ring.
+Qed.
+Lemma sumQ_iota n : sumQ n (fun t => inject_Z (Z.of_nat t)) == inject_Z (Z.of_nat n) * (inject_Z (Z.of_nat n) - 1) / 2.
+Proof.
+  induction n as [|n IH]; [simpl; field|].
+  change (sumQ (S n) (fun t => inject_Z (Z.of_nat t))) with (inject_Z (Z.of_nat 0) + sumQ n (fun t => inject_Z (Z.of_nat (S t)))).
+  rewrite (sumQ_ext n _ (fun t => inject_Z (Z.of_nat t) + 1)).
+  - rewrite sumQ_plus, IH, sumQ_const. rewrite Nat2Z.inj_succ. unfold Z.succ. rewrite inject_Z_plus.
+    change (inject_Z (Z.of_nat 0)) with 0. change (inject_Z 1) with 1. field.
+  - intros t _. rewrite Nat2Z.inj_succ. unfold Z.succ. rewrite inject_Z_plus. reflexivity.
+Qed.
+Lemma barycentre_index (m : nat) (a : Q) : (0 < m)%nat ->
+  sumQ m (fun t => a + inject_Z (Z.of_nat t)) / inject_Z (Z.of_nat m) == a + (inject_Z (Z.of_nat m) - 1) / 2.
+Proof.
+  intros Hm. rewrite sumQ_plus, sumQ_const, sumQ_iota.
+  assert (0 < inject_Z (Z.of_nat m)) by (change 0 with (inject_Z 0); rewrite <- Zlt_Qlt; lia).
+  field. lra.
 Qed.
